@@ -10,7 +10,7 @@ use mdk_storage_traits::GroupId;
 use nostr::EventId;
 
 /// Information about a rollback that occurred due to commit race resolution.
-#[derive(Debug, Clone)]
+#[derive(Clone)]
 pub struct RollbackInfo {
     /// The group that was rolled back
     pub group_id: GroupId,
@@ -22,6 +22,20 @@ pub struct RollbackInfo {
     pub invalidated_messages: Vec<EventId>,
     /// ProcessedMessage wrapper event IDs that were marked as EpochInvalidated
     pub messages_needing_refetch: Vec<EventId>,
+}
+
+impl Debug for RollbackInfo {
+    fn fmt(&self, f: &mut std::fmt::Formatter<'_>) -> std::fmt::Result {
+        // The MLS group id must never reach logs (see SECURITY.md): applications routinely
+        // debug-print callback payloads.
+        f.debug_struct("RollbackInfo")
+            .field("group_id", &"[REDACTED]")
+            .field("target_epoch", &self.target_epoch)
+            .field("new_head_event", &self.new_head_event)
+            .field("invalidated_messages", &self.invalidated_messages)
+            .field("messages_needing_refetch", &self.messages_needing_refetch)
+            .finish()
+    }
 }
 
 /// Callback interface for MDK events.
